@@ -335,18 +335,18 @@ class Scn:
 
     # -- wire scenario
     def wire(self):
-        toml = W.make_toml(pools={"db": {"users": [{"username": "u", "password": "pw", "pool_size": self.pool_size}],
+        toml = W.make_toml(general={"connect_timeout": 10000}, pools={"db": {"users": [{"username": "u", "password": "pw", "pool_size": self.pool_size}],
                                          "shards": [{"database": "db0", "servers": [["b0", "primary"]]}]}})
         steps = []
         for c in self.clients:
             steps.append({"op": "connect", "c": c["name"], "raw_startup": startup_hex(c["pairs"]), "password": "pw",
-                          "params": {"user": "u"}, "timeout_ms": 1500})
+                          "params": {"user": "u"}, "timeout_ms": 8000})
         for op in self.ops:
             c = self.clients[op[1]]
             if op[0] == "q":
                 sql = b";".join(s["sql"] for s in op[2])
                 steps.append({"op": "send", "c": c["name"], "msgs": [{"t": "Q", "sql": {"hex": sql.hex()}}]})
-                steps.append({"op": "recv", "c": c["name"], "until": "Z", "timeout_ms": 3000})
+                steps.append({"op": "recv", "c": c["name"], "until": "Z", "timeout_ms": 15000})
             elif op[2] == "X":
                 steps.append({"op": "send", "c": c["name"], "msgs": [{"t": "X"}]})
                 steps.append({"op": "close", "c": c["name"]})
@@ -356,9 +356,9 @@ class Scn:
         for i in range(self.pool_size):
             z = "z%d" % i
             steps.append({"op": "connect", "c": z, "raw_startup": startup_hex([(b"user", b"u"), (b"database", b"db")]),
-                          "password": "pw", "params": {"user": "u"}, "timeout_ms": 1500})
+                          "password": "pw", "params": {"user": "u"}, "timeout_ms": 8000})
             steps.append({"op": "send", "c": z, "msgs": [{"t": "Q", "sql": "BEGIN /*c12:%s:1*/" % z}]})
-            steps.append({"op": "recv", "c": z, "until": "Z", "timeout_ms": 3000})
+            steps.append({"op": "recv", "c": z, "until": "Z", "timeout_ms": 15000})
         return {"backends": [{"name": "b0"}], "toml": toml, "steps": steps, "log_out": True}
 
     def sent_sql(self):
@@ -493,6 +493,8 @@ class Obs:
                 it = cur.get(e["conn"])
                 if it is not None:
                     it["out_S"].extend(decode_out_frames(e["hex"]))
+        # every scripted recv must have ended at its ReadyForQuery (otherwise the script ran out of step: inconclusive)
+        self.sane = all(r["outcome"] == "ok" for rs in self.replies.values() for r in rs)
         # merge ROLLBACK + RESET that belong to one check-in
         for conn, tl in self.timeline.items():
             out = []
@@ -561,12 +563,13 @@ def monitors(scn, obs):
         op = sent.get(it["sql"])
         if op and op[0] == "q":
             intx = it["txn"] != "I"
+            failed = it["txn"] == "E"
             for x in op[2]:
                 if x.get("txn") == "begin":
                     intx = True
                 if x.get("txn") in ("commit", "rollback"):
-                    intx = False
-                if x.get("untracked"):
+                    intx, failed = False, False
+                if x.get("untracked") and not x["fails"] and not failed:
                     setter[(conn, x["key"])] = (name, n, intx)
         # the client's expectation follows what the server reported during this message
         rep = obs.replies.get(name, [])
@@ -818,14 +821,21 @@ def boundary_scenarios(rng):
     return out
 
 
-def run_batch(run, wire, scns, tag):
+def run_batch(run, wire, scns, tag, with_model=True):
     res = W.run_scenarios(wire, [s.wire() for s in scns])
     obs = []
     for s, r in zip(scns, res):
-        if "events" not in r:
+        o = Obs(s, r) if "events" in r else None
+        if o is None or not o.sane:
+            # a scripted recv timed out (loaded machine?): run this one again, alone
+            r = W.run_scenario(wire, s.wire(), timeout=120)
+            o = Obs(s, r) if "events" in r else None
+        if o is None:
             run.broken.append("wire harness failed on a scenario: %s" % str(r)[:300])
             return None, None
-        obs.append(Obs(s, r))
+        obs.append(o)
+    if not with_model:
+        return obs, [None] * len(obs)
     exprs = [model_ops(s, o) for s, o in zip(scns, obs)]
     vals = vlib.coq_eval(tag, PREAMBLE, exprs, shard=max(4, len(exprs) // 16 + 1))
     return obs, vals
@@ -894,17 +904,17 @@ def check(run):
             "batch_values_nonascii": 0, "batch_values_empty": 0, "batch_values_over_1000B": 0, "checkins_with_reset_all": 0, "checkins_with_rollback": 0,
             "scenarios_with_known_class": 0, "startup_refused": 0, "messages_in_transaction": 0, "forwarded_parameter_status": 0, "scs_off_batches": 0}
     first_tie = None
+    inconclusive = 0
     chunk = 400
     for base in range(0, len(scns), chunk):
         part = scns[base:base + chunk]
-        obs, vals = run_batch(run, wire, part, "c12_%d" % base) if proof_ok else (None, None)
-        if not proof_ok:
-            res = W.run_scenarios(wire, [s.wire() for s in part])
-            obs = [Obs(s, r) for s, r in zip(part, res) if "events" in r]
-            vals = [None] * len(obs)
+        obs, vals = run_batch(run, wire, part, "c12_%d" % base, with_model=proof_ok)
         if obs is None:
             return
         for s, o, v in zip(part, obs, vals):
+            if not o.sane:
+                inconclusive += 1
+                continue
             evals += 1
             dist["pool_size_%d" % s.pool_size] += 1
             if s.flags:
@@ -956,6 +966,9 @@ def check(run):
                        "dollar markers, newlines, non-ASCII UTF-8, empty, up to 1.5 kB; 20 kB in a hand-made one). distinct = distinct (statement shape, backend tracked values) and (key, value) pairs seen in SET batches" % (nb, nrand))
     run.cov["samples"] = samples[:4]
     run.cov["input_distribution"] = dist
+    run.cov["inconclusive_scenarios"] = inconclusive
+    if inconclusive > max(2, len(scns) // 100):
+        run.broken.append("%d of %d scenarios were inconclusive twice (a scripted recv did not reach ReadyForQuery)" % (inconclusive, len(scns)))
     run.log("scenarios=%d client messages=%d sync batches=%d distinct=%d" % (evals, dist["client_messages"], dist["sync_batches"], len(distinct)))
 
     if const_bad:
